@@ -512,6 +512,24 @@ def absorb_sim(chk, rp, module, cfg, num, depth, judge=None, tag=None):
     chk.exhaustive = False
 
 
+def apalache_check(module, args, timeout=600):
+    """generic Apalache run in /verif/spec; returns 'NoError' / 'Error' / 'unavailable'"""
+    out = '%s/apalache/%s' % (BUILD, uuid.uuid4().hex[:10])
+    os.makedirs(out, exist_ok=True)
+    try:
+        p = subprocess.run(['timeout', str(timeout), 'apalache-mc', 'check', '--out-dir=' + out] + list(args) + [module + '.tla'],
+                           cwd=SPEC, capture_output=True, text=True)
+    except FileNotFoundError:
+        return 'unavailable'
+    finally:
+        shutil.rmtree(out, ignore_errors=True)
+    if 'The outcome is: NoError' in p.stdout:
+        return 'NoError'
+    if 'The outcome is: Error' in p.stdout:
+        return 'Error'
+    return 'unavailable'
+
+
 def apalache_laws(module, inv='Laws', timeout=300):
     """checks `inv` over Init (length 0) with Apalache, i.e. for ALL integer values; returns 'NoError' / 'Error' / 'unavailable'"""
     out = '%s/apalache/%s' % (BUILD, uuid.uuid4().hex[:10])
